@@ -39,6 +39,9 @@ type c12Scenario struct {
 	// ExpectClosed: a close-type operation runs on the scenario DB and nothing re-opens it,
 	// so at quiescence it must be closed with every handle released.
 	ExpectClosed bool
+	// Env: exploration settings this scenario needs (e.g. C12_PIPE=prefer C12_FS=all); given to its worker
+	// process and re-applied on replay.
+	Env []string
 }
 
 func (sc *c12Scenario) String() string {
@@ -173,6 +176,18 @@ var c12Pairs = func() []*c12Scenario {
 	tri("3:compact1-compact1-retl0", r, []string{"CMP1"}, []string{"CMP1"}, []string{"RETL0"})
 	tri("3:storeclose-sync-snapshot", b, []string{"SCLOSE"}, []string{"SYNC"}, []string{"FSNAP"})
 	tri("3:sync-then-ckt--write-then-sync--snapshot", b, []string{"SYNC", "CKT"}, []string{"W", "SYNC"}, []string{"FSNAP"})
+	// Regression scenarios of repaired defects that were first found in the thorough tier: part of the quick tier,
+	// each with the exploration settings it needs (F20: two snapshots interleaved inside the upload stream; F25: reset
+	// against an in-flight replica upload).
+	for _, sc := range out {
+		switch sc.Name {
+		case "snapshot-vs-snapshot":
+			sc.Thorough = false
+			sc.Env = []string{"C12_PIPE=prefer", "C12_FS=all"}
+		case "3:reset-sync-rsync":
+			sc.Thorough = false
+		}
+	}
 	return out
 }()
 
